@@ -16,7 +16,6 @@ def runExport (j : Json) : R (Json × Json) := do
   let names ← na.toList.mapM (fun e => do
     let a ← asArr e
     pure ((← asNat a[0]!), (← asStr a[1]!)))
-  let nameOf : Tree Nat → String := fun n => ((names.find? (fun e => e.1 == n.label)).map Prod.snd).getD "?"
   let fOut ← getNatList j "filter_out"
   let stopS ← getNatList j "stop"
   let m ← getOptInt j "maxlevel"
@@ -31,18 +30,6 @@ def runExport (j : Json) : R (Json × Json) := do
   let indent ← (getOptNat j "indent" <|> pure none)
   let graph ← (do let v ← getField j "graph"; if v.isNull then pure none else some <$> asStr v) <|> pure none
   let gname ← (do let v ← getField j "gname"; if v.isNull then pure none else some <$> asStr v) <|> pure none
-  let F : Tree Nat → Bool := fun n => !fOut.contains n.label
-  let S : Tree Nat → Bool := fun n => stopS.contains n.label
-  let key : Tree Nat → Nat := fun n => n.label
-  -- deterministic custom functions, mirrored by the Python harness
-  let cName : Tree Nat → String := fun n => nameOf n ++ "|" ++ toString n.label
-  let cNodeAttr : Tree Nat → Option String := fun n =>
-    if n.label % 2 == 0 then some ("shape=box,l=" ++ toString n.label) else none
-  let cEdgeAttr : Tree Nat → Tree Nat → Option String := fun p c =>
-    if (p.label + c.label) % 3 == 0 then none else some ("label=\"" ++ toString p.label ++ "-" ++ toString c.label ++ "\"")
-  let cEdgeType : Tree Nat → Tree Nat → String := fun p c => if (p.label + c.label) % 2 == 0 then "--" else "->"
-  let specId : Tree Nat → String := fun n => pyHex (1000 + n.label)
-  let specIdM : Tree Nat → String := fun n => "N" ++ toString (1000 + n.label)
   -- `exporter.maxlevel` may be changed between two iterations of one exporter: `maxlevel_seq[i]` (if given) is the
   -- value in force during iteration i
   let mseq : List (Option Int) ← (do
@@ -50,42 +37,79 @@ def runExport (j : Json) : R (Json × Json) := do
     if v.isNull then pure [] else (do
       let a ← asArr v
       pure (a.toList.map (fun x => match x.getInt? with | .ok n => some n | .error _ => none)))) <|> pure []
-  let mAt : Nat → Option Int := fun i => match mseq[i]? with | some v => v | none => m
+  -- more generally `seq[i]` (if given and not null) overrides, for iteration i, the names of the nodes, the filtered-out
+  -- and stopped sets and maxlevel (the tree was renamed / the exporter's attributes were changed between two iterations)
+  let seqA : List Json ← (do
+    let v ← getField j "seq"
+    if v.isNull then pure [] else (do let a ← asArr v; pure a.toList)) <|> pure []
+  let parP : Nat → R (List (Nat × String) × List Nat × List Nat × Option Int) := fun i => do
+    let m0 : Option Int := match mseq[i]? with | some v => v | none => m
+    match seqA[i]? with
+    | none => pure (names, fOut, stopS, m0)
+    | some o =>
+      if o.isNull then pure (names, fOut, stopS, m0) else
+      let nm ← (do
+        let a ← getArr o "names"
+        a.toList.mapM (fun e => do
+          let a ← asArr e
+          pure ((← asNat a[0]!), (← asStr a[1]!)))) <|> pure names
+      let fo ← (getNatList o "filter_out" <|> pure fOut)
+      let st ← (getNatList o "stop" <|> pure stopS)
+      let mm ← (match o.getObjVal? "maxlevel" with
+        | .ok _ => getOptInt o "maxlevel"
+        | .error _ => pure m0)
+      pure (nm, fo, st, mm)
+  let ps ← (List.range iters).mapM parP
+  let pAt : Nat → (List (Nat × String) × List Nat × List Nat × Option Int) := fun i => ps[i]?.getD (names, fOut, stopS, m)
+  let nameOfP : List (Nat × String) → Tree Nat → String := fun nms n =>
+    ((nms.find? (fun e => e.1 == n.label)).map Prod.snd).getD "?"
+  let key : Tree Nat → Nat := fun n => n.label
+  -- deterministic custom functions, mirrored by the Python harness
+  let cNameP : List (Nat × String) → Tree Nat → String := fun nms n => nameOfP nms n ++ "|" ++ toString n.label
+  let cNodeAttr : Tree Nat → Option String := fun n =>
+    if n.label % 2 == 0 then some ("shape=box,l=" ++ toString n.label) else none
+  let cEdgeAttr : Tree Nat → Tree Nat → Option String := fun p c =>
+    if (p.label + c.label) % 3 == 0 then none else some ("label=\"" ++ toString p.label ++ "-" ++ toString c.label ++ "\"")
+  let cEdgeType : Tree Nat → Tree Nat → String := fun p c => if (p.label + c.label) % 2 == 0 then "--" else "->"
+  let specId : Tree Nat → String := fun n => pyHex (1000 + n.label)
+  let specIdM : Tree Nat → String := fun n => "N" ++ toString (1000 + n.label)
   let rec runIters {σ : Type} (i k : Nat) (step : Nat → σ → List String × σ) (st : σ) (acc : List String) : List String :=
     match k with
     | 0 => acc
     | k+1 => let (ls, st') := step i st; runIters (i + 1) k step st' (acc ++ ls)
   match kind with
   | "mermaid" =>
-    let cfg : MermaidCfg Nat Nat := {
+    let cfgP : (List (Nat × String) × List Nat × List Nat × Option Int) → MermaidCfg Nat Nat := fun (nms, fo, st, mm) => {
       graph := graph.getD Generated.mermaidGraph, name := gname.getD Generated.mermaidName,
       options := opts, indent := indent.getD Generated.mermaidIndent,
       nodename := if custom then NameFn.pure (fun n => "n" ++ toString n.label) else mermaidName key,
-      nodefunc := if custom then (fun n => "(\"" ++ nameOf n ++ "\")") else (fun n => "[\"" ++ esc (nameOf n) ++ "\"]"),
+      nodefunc := if custom then (fun n => "(\"" ++ nameOfP nms n ++ "\")") else (fun n => "[\"" ++ esc (nameOfP nms n) ++ "\"]"),
       edgefunc := if custom then (fun p c => "--" ++ toString p.label ++ "." ++ toString c.label ++ "-->")
                   else (fun _ _ => Generated.mermaidEdge),
-      filter := F, stop := S, maxlevel := m }
+      filter := fun n => !fo.contains n.label, stop := fun n => st.contains n.label, maxlevel := mm }
+    let cfg := cfgP (names, fOut, stopS, m)
     let nodes0 := Iter.preIter cfg.filter cfg.stop cfg.maxlevel s
     let st0 := (merNodes cfg (spaces cfg.indent) (nodes0.take partialN) ([] : IdMap Nat)).2
-    let mir := runIters 0 iters (fun i st => merIter legacy { cfg with maxlevel := mAt i } s st) st0 []
+    let mir := runIters 0 iters (fun i st => merIter legacy (cfgP (pAt i)) s st) st0 []
     let nm : Tree Nat → String := if custom then (fun n => "n" ++ toString n.label) else specIdM
-    let sp := (List.range iters).flatMap (fun i => Spec.merLinesS { cfg with maxlevel := mAt i } nm s)
+    let sp := (List.range iters).flatMap (fun i => Spec.merLinesS (cfgP (pAt i)) nm s)
     pure (strsJ mir, strsJ sp)
   | _ =>
     let uniq := kind == "unique"
-    let cfg : DotCfg Nat Nat := {
+    let cfgP : (List (Nat × String) × List Nat × List Nat × Option Int) → DotCfg Nat Nat := fun (nms, fo, st, mm) => {
       graph := graph.getD Generated.dotGraph, name := gname.getD Generated.dotName,
       options := opts, indent := indent.getD Generated.dotIndent,
-      nodename := if custom then NameFn.pure cName else if uniq then uniqueName key else NameFn.pure nameOf,
-      nodeattr := if custom then cNodeAttr else if uniq then (fun n => some ("label=\"" ++ nameOf n ++ "\"")) else (fun _ => none),
+      nodename := if custom then NameFn.pure (cNameP nms) else if uniq then uniqueName key else NameFn.pure (nameOfP nms),
+      nodeattr := if custom then cNodeAttr else if uniq then (fun n => some ("label=\"" ++ nameOfP nms n ++ "\"")) else (fun _ => none),
       edgeattr := if custom then cEdgeAttr else (fun _ _ => none),
       edgetype := if custom then cEdgeType else (fun _ _ => Generated.dotEdgeType),
-      filter := F, stop := S, maxlevel := m }
+      filter := fun n => !fo.contains n.label, stop := fun n => st.contains n.label, maxlevel := mm }
+    let cfg := cfgP (names, fOut, stopS, m)
     let nodes0 := Iter.preIter cfg.filter cfg.stop cfg.maxlevel s
     let st0 := (dotNodes cfg (spaces cfg.indent) (nodes0.take partialN) ([] : IdMap Nat)).2
-    let mir := runIters 0 iters (fun i st => dotIter legacy { cfg with maxlevel := mAt i } s st) st0 []
-    let nm : Tree Nat → String := if custom then cName else if uniq then specId else nameOf
-    let sp := (List.range iters).flatMap (fun i => Spec.dotLinesS { cfg with maxlevel := mAt i } nm s)
+    let mir := runIters 0 iters (fun i st => dotIter legacy (cfgP (pAt i)) s st) st0 []
+    let nmP : List (Nat × String) → Tree Nat → String := fun nms => if custom then cNameP nms else if uniq then specId else nameOfP nms
+    let sp := (List.range iters).flatMap (fun i => Spec.dotLinesS (cfgP (pAt i)) (nmP (pAt i).1) s)
     pure (strsJ mir, strsJ sp)
 
 end Anytree.Drv
